@@ -222,6 +222,12 @@ def configs(tier):
         for s in POLY_SCALES:
             for c in C:
                 out.append(K.polygon_spec(name, s, c))
+    # rings far from the pixel origin whose last vertex is distinct from the first but lies within a relative 1e-5 of it
+    for B in (2.0 ** 19, -2.0 ** 19 + 0.5):
+        out.append({'cls': 'polygon', 'name': 'far_almost_closed',
+                    'vertices': [[B, B + 8, B + 8, B + 3, B + 2], [B, B, B + 6, B + 6, B + 1.5]]})
+        out.append({'cls': 'polygon', 'name': 'far_almost_closed_quad',
+                    'vertices': [[B, B + 6, B + 5, B - 1.5], [B, B + 1, B + 7, B + 2]]})
     # needles a hair away from a quarter turn: the far ends are where a rounded angle shows
     for cls in ('rectangle', 'ellipse'):
         for (w, h, a) in ((40000.0, 1.0, 270.0025), (6000.0, 0.5, 1080.01), (1.0, 20000.0, 89.998), (30000.0, 2.0, -90.003)):
